@@ -3,6 +3,7 @@
 -/
 import PsProofs.Store
 import PsProofs.IterRun
+import PsProofs.StoreN
 
 namespace Ps.Props
 open Ps Ps.Spec
@@ -46,6 +47,21 @@ theorem C06_next_block {env : Env} (h : EnvOK env) (k : Nat) (st : Iter) (hinv :
     | .ok st' => nextPrime (st.buf.getD (st.size - 1) 0 + 1) < U64 ∧ st'.i = 0 ∧
         st'.buf.getD 0 0 = nextPrime (st.buf.getD (st.size - 1) 0 + 1) ∧ AtInv st' ∧ st'.hint = st.hint :=
   generateNext_at h k st hinv
+
+/-- **C06 (generate_n_primes)** for every n, start < 2^64, element type, block-length policy, stop hint and float oracle
+    (fuel ≥ n bounds the refills: each block removes at least one prime from the count, so the loop
+    terminates): `store_n_primes` appends exactly the first n primes ≥ start — `primeSeq start 0 … n-1`
+    — when the n-th of them fits the element type and 64 bits; otherwise it throws, and what it has
+    appended by then is an EXACT PREFIX of the requested primes (never a truncated value, never a
+    gap).  It throws only in that case. -/
+theorem C06_store_n_primes {env : Env} (h : EnvOK env) (kf : Nat → Nat) (fuel n start hintStop vmax : Nat)
+    (hs : start ≤ umax) (hfuel : n ≤ fuel) :
+    ∃ r, storeNPrimes env kf fuel n start hintStop vmax = some r ∧
+      match r with
+      | .ok app => app = firstN start n ∧ (n = 0 ∨ (primeSeq start (n - 1) ≤ vmax ∧ primeSeq start (n - 1) < U64))
+      | .throw app _ => (∃ k, k < n ∧ app = firstN start k) ∧
+          ¬ (primeSeq start (n - 1) ≤ vmax ∧ primeSeq start (n - 1) < U64) :=
+  storeNPrimes_spec h kf fuel n start hintStop vmax hs hfuel
 
 /-- the store constant is the largest 64-bit prime -/
 theorem C06_storeMaxPrime : storeMaxPrime.Prime ∧ ∀ n, storeMaxPrime < n → n < U64 → ¬ n.Prime :=
